@@ -278,12 +278,12 @@ impl Circuit {
         let mut lines = lines_str.into_iter();
 
         // Parse wire and gate counts
-        let (wires_num, _gates_num) = {
+        let (wires_num, _gates_num, header_str) = {
             let (parts, line_str) = parse_line(lines.next())?;
             if parts.len() != 2 {
                 return Err(FromBristolError::MalformedLine(line_str));
             }
-            (parts[1], parts[0])
+            (parts[1], parts[0], line_str)
         };
 
         // Parse input line
@@ -301,7 +301,12 @@ impl Circuit {
                     expected_parties,
                 ));
             }
-            let input_wires: usize = input_gates.iter().sum();
+            let Some(input_wires) = input_gates
+                .iter()
+                .try_fold(0usize, |sum, n| sum.checked_add(*n))
+            else {
+                return Err(FromBristolError::MalformedLine(line_str));
+            };
             (input_gates, input_wires)
         };
 
@@ -319,12 +324,30 @@ impl Circuit {
                     num_outputs,
                 ));
             }
-            let num_output_wires = gates_per_output.iter().sum::<usize>();
-            (vec![0; num_output_wires], num_output_wires)
+            let Some(num_output_wires) = gates_per_output
+                .iter()
+                .try_fold(0usize, |sum, n| sum.checked_add(*n))
+            else {
+                return Err(FromBristolError::MalformedLine(line_str));
+            };
+            // Every wire is either an input wire or the output wire of one of the remaining lines,
+            // so larger numbers cannot be right.
+            if input_wires_num > wires_num || wires_num - input_wires_num > lines.len() {
+                return Err(FromBristolError::MalformedLine(header_str));
+            }
+            if num_output_wires > wires_num {
+                return Err(FromBristolError::MalformedLine(line_str));
+            }
+            let Some(output_gates) = zeroed_vec(num_output_wires) else {
+                return Err(FromBristolError::MalformedLine(line_str));
+            };
+            (output_gates, num_output_wires)
         };
 
         // Create the wires map to map the wires in the Bristol format to the wires in the Garble format.
-        let mut wires_map = vec![0; wires_num];
+        let Some(mut wires_map) = zeroed_vec(wires_num) else {
+            return Err(FromBristolError::MalformedLine(header_str));
+        };
         for (i, wire) in wires_map.iter_mut().take(input_wires_num).enumerate() {
             *wire = i;
         }
@@ -342,7 +365,7 @@ impl Circuit {
             }
             let num_inputs: usize = parts[0].parse()?;
             let num_outputs: usize = parts[1].parse()?;
-            if num_outputs != 1 || parts.len() != num_inputs + 4 {
+            if num_outputs != 1 || num_inputs.checked_add(4) != Some(parts.len()) {
                 return Err(FromBristolError::MalformedLine(line_str));
             }
             let input_wires: Vec<usize> = parts[2..(2 + num_inputs)]
@@ -399,6 +422,14 @@ impl Circuit {
             output_gates,
         })
     }
+}
+
+/// A vector of `len` zeros, `None` if a vector of this (untrusted) length cannot be allocated.
+fn zeroed_vec(len: usize) -> Option<Vec<usize>> {
+    let mut v = Vec::new();
+    v.try_reserve_exact(len).ok()?;
+    v.resize(len, 0);
+    Some(v)
 }
 
 /// Parses a line from the Bristol format file and returns a vector of usize.
